@@ -4,6 +4,7 @@ import (
 	"context"
 	"crypto/rand"
 	"fmt"
+	"sync"
 
 	"github.com/lightninglabs/lndclient"
 	"github.com/lightninglabs/pool/account"
@@ -24,6 +25,21 @@ type acctSubscription struct {
 	batchVersion order.BatchVersion
 	errChan      chan error
 	quit         chan struct{}
+
+	// closeOnce makes sure the channels of the subscription are only
+	// closed once, see close.
+	closeOnce sync.Once
+}
+
+// close signals everybody waiting on the subscription that the stream it was
+// made on is gone. A subscription stays in the client's map after its stream
+// was closed, and a new stream can be set up before the subscription is
+// replaced, so the next closing of the stream can find it again.
+func (s *acctSubscription) close() {
+	s.closeOnce.Do(func() {
+		close(s.quit)
+		close(s.msgChan)
+	})
 }
 
 // authenticate performs the 3-way authentication handshake between the trader
